@@ -624,6 +624,28 @@ fn part3(tier: Tier, deadline: &Deadline) -> Stats {
                 return;
             };
             st.evals += 1;
+            // no program of this space calls random: its rows do not depend on the generator's seed
+            // (the device answers Z, then 1: a polling loop that reads Z must not toss a coin)
+            {
+                let zs: Answer = sigs.iter().filter(|s| s.is_out()).map(|s| (s.name.clone(), V::Z)).collect();
+                let ones: Answer = sigs.iter().filter(|s| s.is_out()).map(|s| (s.name.clone(), V::Num(1))).collect();
+                let script = vec![Step::Ans(zs.clone()), Step::Ans(zs), Step::Ans(ones)];
+                let mut runs = vec![];
+                for sd in [1u64, 0x5eed_0002, 77] {
+                    let mut opts = RunOpts::new(20);
+                    opts.repeat_last = true;
+                    opts.continue_after_error = true;
+                    opts.seed = sd;
+                    runs.push((run_loaded(&tc, &sigs, true, &script, &opts), opts));
+                }
+                st.witness("same_program_under_three_seeds");
+                if let Some(j) = (1..3).find(|&j| runs[j].0.items != runs[0].0.items) {
+                    let k = runs[0].0.items.iter().zip(runs[j].0.items.iter()).position(|(a, b)| a != b).unwrap_or(0);
+                    let (o, opts) = &runs[j];
+                    st.violation("rows depend on the generator's seed although the program never calls random", idx, format!("{text}the device answers Z, Z, then 1 for every output\nitem {k} under seed 1: {}\nitem {k} under seed {}: {}", runs[0].0.items.get(k).map(|i| i.brief()).unwrap_or_default(), opts.seed, o.items.get(k).map(|i| i.brief()).unwrap_or_default()), || dyn_replay(&text, &sigs, true, &script, opts, crate::compare::obs_items_brief(&runs[0].0), o, "differs from the run under seed 1"));
+                    return;
+                }
+            }
             let reads = static_reads(&prog);
             let so = run_static_opt(&tc, 45, 1, 5_000, true);
             let replay = |obs: String| json!({"kind": "static", "text": text, "signals": sigs_json(&sigs), "expected": [if reads.is_empty() { "try_iter_static succeeds (the program reads no outputs)".to_string() } else { format!("try_iter_static fails (the program reads {reads:?})") }], "observed": [obs]});
@@ -774,6 +796,32 @@ pub fn run(tier: Tier, seed: u64) -> i32 {
     let deadline = Deadline::new(tier.wall_cap());
     let mut total = Stats::default();
     part1(&mut total);
+    // far beyond the enumerated scope: a static test with 70 001 rows yields them all, as a dynamic run does
+    {
+        let sigs = vec![Sig::inp("A", 32, 0), Sig::inp("B", 8, 1), Sig::out("Q", 8)];
+        let prog = Program { header: vec!["A".into(), "B".into(), "Q".into()], body: vec![Stmt::Loop("i".into(), lit(70_000), vec![Stmt::Row(vec![Entry::Paren(name("i")), Entry::Lit(1, Radix::Dec), Entry::X])]), Stmt::Row(vec![Entry::Lit(7, Radix::Dec), Entry::Lit(7, Radix::Dec), Entry::Lit(7, Radix::Dec)])] };
+        let text = text(&prog);
+        if let Ok(tc) = load(&text, &sigs, DEFAULT_BUDGET) {
+            total.evals += 1;
+            total.nontrivial += 1;
+            total.witness("static_test_with_70000_rows");
+            let so = run_static_opt(&tc, 80_000, 1, 100_000_000, false);
+            let script = vec![Step::Ans(vec![("Q".into(), V::Num(3))])];
+            let mut opts = RunOpts::new(80_000);
+            opts.repeat_last = true;
+            opts.budget = 100_000_000;
+            let o = run_loaded(&tc, &sigs, true, &script, &opts);
+            let dyn_n = o.items.iter().filter(|i| i.is_row()).count();
+            let dyn_last = o.items.iter().rev().find_map(|i| if let ObsItem::Row(r) = i { Some((r.line, r.inputs.clone())) } else { None });
+            let (st_n, st_last, ended) = match &so {
+                StaticObs::Rows(rows, ended) => (rows.iter().filter(|r| r.is_ok()).count(), rows.iter().rev().find_map(|r| r.as_ref().ok().map(|r| (r.line, r.inputs.clone()))), *ended),
+                _ => (0, None, false),
+            };
+            if st_n != dyn_n || st_last != dyn_last || !ended || dyn_n != 70_001 {
+                total.violation("static rows differ from a dynamic run (large scale)", 1 << 62, format!("{text}static iteration: {st_n} rows (ended: {ended}), last {st_last:?}\ndynamic run: {dyn_n} rows, last {dyn_last:?}\nexpected 70001 rows from both"), || json!({"kind": "static", "text": text, "signals": sigs_json(&sigs), "count_rows": true, "expected": ["70001 static rows"], "observed": [format!("{st_n} static rows")]}));
+            }
+        }
+    }
     let k = 3;
     let p2 = part2(k, true, tier.pick(6, 10), &deadline);
     total.merge(p2);
@@ -799,7 +847,7 @@ pub fn run(tier: Tier, seed: u64) -> i32 {
             "interleaving states are merged on the position vector; the thorough tier re-explores without merging".into(),
             "values drawn by random are outside the property; the seed is pinned through hook H1".into(),
         ],
-        required_witnesses: vec!["non_identity_hash_map_order", "binding_error_compared", "real_hash_map_order_varies_under_the_seam", "non_identity_order_in_the_dig_loader", "step_while_another_iterator_is_mid_run", "iterator_restarted_mid_run", "program_reading_outputs_is_not_static", "static_program_compared_with_dynamic_runs", "static_iteration_past_an_error_item", "row_spoilt_by_a_misbehaving_driver_then_carried_on", "static_program_with_an_error_item_compared_with_dynamic_runs", "one_loaded_test_used_twice_with_different_drivers"],
+        required_witnesses: vec!["non_identity_hash_map_order", "binding_error_compared", "real_hash_map_order_varies_under_the_seam", "non_identity_order_in_the_dig_loader", "step_while_another_iterator_is_mid_run", "iterator_restarted_mid_run", "program_reading_outputs_is_not_static", "static_program_compared_with_dynamic_runs", "static_iteration_past_an_error_item", "row_spoilt_by_a_misbehaving_driver_then_carried_on", "static_program_with_an_error_item_compared_with_dynamic_runs", "one_loaded_test_used_twice_with_different_drivers", "same_program_under_three_seeds", "static_test_with_70000_rows"],
         exhaustive_note: "all orders, all interleavings (as states and schedule edges), all programs within the bounds".into(),
         e1: true,
     };
@@ -840,6 +888,15 @@ pub fn replay_digorder(j: &serde_json::Value) -> Vec<String> {
 pub fn replay_static(j: &serde_json::Value) -> Vec<String> {
     let text = j["text"].as_str().unwrap_or("");
     let sigs: Vec<Sig> = j["signals"].as_array().map(|a| a.iter().filter_map(|s| s.as_str().and_then(Sig::parse)).collect()).unwrap_or_default();
+    if j["count_rows"].as_bool().unwrap_or(false) {
+        return vec![match load(text, &sigs, DEFAULT_BUDGET) {
+            Ok(tc) => match run_static_opt(&tc, 80_000, 1, 100_000_000, false) {
+                StaticObs::Rows(rows, _) => format!("{} static rows", rows.iter().filter(|r| r.is_ok()).count()),
+                other => format!("{other:?}"),
+            },
+            Err(e) => format!("{e:?}"),
+        }];
+    }
     vec![match load(text, &sigs, DEFAULT_BUDGET) {
         Ok(tc) => match run_static(&tc, 45, 1, 5_000) {
             StaticObs::NotStatic(_) => "refused".into(),
